@@ -488,7 +488,18 @@ def _plan(tier, seed):
             "reuse": 600, "procs": 16}
 
 
+_CASES_CACHE = {}
+
+
 def _cases(tier, seed):
+    key = (tier, seed)
+    if key not in _CASES_CACHE:
+        _CASES_CACHE.clear()
+        _CASES_CACHE[key] = _build_cases(tier, seed)
+    return _CASES_CACHE[key]
+
+
+def _build_cases(tier, seed):
     plan = _plan(tier, seed)
     pool = style_pool(seed, plan["blocks"], plan["n_random"])
     seqs = make_sequences(seed, pool, plan["sequences"])
